@@ -188,6 +188,21 @@ func (r *run) peerGotReturn(q *myQuestion) {
 		// never delivered: must be an exception (or canceled after Finish)
 		if q.retErr == "" {
 			r.mfail("return_wrong_content", "answer.go:(*answer).sendReturn", fmt.Sprintf("call %d (token %d, target %s) was answered with results although no application capability ever saw it", q.id, q.token, q.target))
+			return
+		}
+		// ... and an exception is only right when the target really holds no
+		// capability the call could have been delivered to.
+		if q.finishSent || !r.connOpen() || q.pa == nil {
+			return
+		}
+		switch {
+		case q.pa.kind == "bootstrap":
+			r.mfail("pipelined_call_lost", "rpc.go:(*Conn).handleCall", fmt.Sprintf("call %d (token %d) pipelined on the bootstrap answer %d was answered with exception %q and never reached the bootstrap capability", q.id, q.token, q.pa.id, q.retErr))
+		default:
+			pac := r.appCalls[q.pa.token]
+			if pac != nil && pac.done && pac.err == nil && pac.putApp >= 0 && r.apps[pac.putApp].shutdown == 0 {
+				r.mfail("pipelined_call_lost", "rpc.go:(*Conn).handleCall", fmt.Sprintf("call %d (token %d) pipelined on answer %d, whose implementation returned application capability %d in pointer 0, was answered with exception %q and never delivered", q.id, q.token, q.pa.id, pac.putApp, q.retErr))
+			}
 		}
 	case !ac.done:
 		r.mfail("return_wrong_content", "answer.go:(*answer).Return", fmt.Sprintf("call %d (token %d) was answered (%q / token %d) while its implementation is still running", q.id, q.token, q.retErr, q.retToken))
